@@ -29,7 +29,7 @@ func init() {
 }
 
 func init() {
-	props["C04"] = []Stream{{"config", genCfg}, {"merge", genMerge}}
+	props["C04"] = []Stream{{"config", genCfg}, {"merge", genMerge}, {"c04-oracle", genMergeStep}}
 }
 
 func init() {
